@@ -221,6 +221,9 @@ fn mips_case(seed: u64, idx: u64) -> Enc {
     let (a, b, c) = reg_pattern(r, p, v);
     let ns = 12usize;
     let mut tags = vec![format!("form:{}", name), format!("end:{}", if big { "be" } else { "le" }), format!("regs:p{}", p.min(11))];
+    if matches!(k, K::Load(..) | K::Store(..)) && a == b { tags.push("alias:rt=base".into()); }
+    if matches!(k, K::R3(_) | K::Mul | K::Shv(_)) && a == b && b == c { tags.push("alias:rd=rs=rt".into()); }
+    if matches!(k, K::R3(_) | K::Mul | K::Shv(_)) && (a == b || a == c) { tags.push("alias:rd=src".into()); }
     let mut words;
     let samples;
     let text;
@@ -550,7 +553,12 @@ fn ppc_case(seed: u64, idx: u64) -> PEnc {
     if p == 0 && v % 2 == 1 { a = 0; }
     if p == 4 && v % 2 == 1 { b = 31; c = 31; }
     let ns = 10usize;
+    let mut imm = imm;
+    if matches!(k, P::Mem(_)) && p == 7 { a = 1; b = 1; imm = 0xfff0; }       // stwu r1, -16(r1) and friends: rS = rA / rD = rA
     let mut tags = vec![format!("form:ppc-{}", name), "arch:ppc".to_string(), format!("regs:p{}", p.min(11))];
+    if matches!(k, P::Mem(_)) && a == b { tags.push("alias:rt=base".into()); }
+    if matches!(k, P::X3(_) | P::Or) && a == b && b == c { tags.push("alias:rd=rs=rt".into()); }
+    if matches!(k, P::X3(_) | P::Or | P::D(_) | P::Addze | P::Ori | P::Rlwinm | P::Slwi | P::Srawi) && (a == b) { tags.push("alias:rd=src".into()); }
     let (word, samples, text): (u32, Vec<PSample>, String) = match k {
         P::X3(xo) => (xform(31, a, b, c, xo, 0), ppc_samples(r, v, Some(b), Some(c), ns), format!("{} r{}, r{}, r{}", name, a, b, c)),
         P::Addze => (xform(31, a, b, 0, 202, 0), ppc_samples(r, v, Some(b), None, ns), format!("addze r{}, r{}", a, b)),
